@@ -13,3 +13,12 @@ for (r, c, w) in [(2, 2, 0), (3, 3, 0), (3, 3, 1), (4, 4, 2)]:
         if p.exc: print('EXC', repr(p.exc)); break
     print(r, c, w, 'paths', n, round(time.time() - t, 2), st.branch_queries)
     if n == 1: print(p.result[1][1], p.result[r][c] if r<3 else '')
+for (r, c, w) in [(3, 4, 0), (4, 3, 0), (3,4,2), (4, 4, 0)]:
+    mode = dtwh.SeriesMode(r, c, 'squared euclidean')
+    st = smt.Stats()
+    ex = pysym.Explorer([z3.Real('P') >= 0], stats=st, max_paths=3000)
+    t = time.time(); n = 0
+    for p in ex.explore(lambda: ckern.full_matrix(ckern.warping_paths(irmod, mode, {'window': w, 'penalty': z3.Real('P')}, keep_int_repr=True))):
+        n += 1
+        if p.exc: print('EXC', repr(p.exc)); break
+    print(r, c, w, 'pen paths', n, round(time.time() - t, 2), st.branch_queries)
